@@ -290,7 +290,7 @@ ensures
         ('at_composite2', dict(ret='b', props=P5, spec='requires self.wf(), n <= 3, k1 != SyntaxKind::EOF, ensures b == comp2(self.st(), n as nat, k1, k2),')),
         ('at_composite3', dict(ret='b', props=P5, spec='requires self.wf(), n <= 3, k1 != SyntaxKind::EOF, k2 != SyntaxKind::EOF, ensures b == comp3(self.st(), n as nat, k1, k2, k3),')),
         ('at_ts', dict(ret='b', props=P, spec='requires self.wf(), ensures b == crate::token_set::has(kinds, cur(self.st())),')),
-        ('start', dict(ret='m', props=P, spec='requires old(self).wf(),\nensures unmoved(*old(self), *final(self)), final(self).events@ == old(self).events@.push(Event::Start { kind: SyntaxKind::TOMBSTONE, forward_parent: None }),')),
+        ('start', dict(ret='m', props=P, ghost=[('let pos = self.events.len() as u32;', 'before', 'assume(self.events@.len() < u32::MAX); /* AP:global bound (DESIGN section 7): the parser records fewer than 2^32 events */')], spec='requires old(self).wf(),\nensures unmoved(*old(self), *final(self)), m.pos == old(self).events@.len(), final(self).events@ == old(self).events@.push(Event::Start { kind: SyntaxKind::TOMBSTONE, forward_parent: None }),')),
         ('bump', dict(props=P, spec='''
 requires old(self).wf(), kind != SyntaxKind::EOF, at(old(self).st(), kind),           // `assert!(self.eat(kind))`
 ensures mono(*old(self), *final(self)), final(self).pos == old(self).pos + raw_len(kind),''')),
@@ -300,7 +300,7 @@ ensures mono(*old(self), *final(self)),
     cur(old(self).st()) != SyntaxKind::EOF ==> final(self).pos == old(self).pos + 1,
     cur(old(self).st()) == SyntaxKind::EOF ==> final(self).pos == old(self).pos,''')),
         ('error', dict(props=P, trusted=True, note='generic `message.into()` (Into<String>)',
-                       spec='requires old(self).wf(),\nensures unmoved(*old(self), *final(self)), final(self).has_err(),')),
+                       spec='requires old(self).wf(),\nensures unmoved(*old(self), *final(self)), final(self).has_err(), evf(old(self).events@, final(self).events@, old(self).events@.len() as int),   // (pushes one Error event)')),
         ('expect', dict(ret='b', props=P, spec='''
 requires old(self).wf(), kind != SyntaxKind::EOF,
 ensures b == at(old(self).st(), kind), mono(*old(self), *final(self)),
@@ -324,17 +324,33 @@ ensures final(self).wf(), final(self).inp == old(self).inp, final(self).pos == o
     MK = 'requires old(p).wf(),'
     p.impl('Marker', [
         ('new', dict(ret='r', props=P, spec='ensures r.pos == pos,')),
-        ('complete', dict(ret='r', props=P, trusted=True, note='marker discipline (slot at self.pos is a Start event) is not verified',
-                          spec=MK + '''
+        ('complete', dict(ret='r', props=P, mut_self=True, spec=MK + ''' pending_at(old(p).events@, self.pos as int),          // the `unreachable!()` of the body
+    kind != SyntaxKind::TOMBSTONE,
     // an ERROR node may only be completed after an error event was recorded (C12)
     kind == SyntaxKind::ERROR ==> old(p).has_err(),                                  //@C12:error-node-needs-error-event
-ensures unmoved(*old(p), *final(p)), r.kind == kind,''')),
-        ('abandon', dict(props=P, trusted=True, note='marker discipline not verified', spec=MK + '\nensures unmoved(*old(p), *final(p)),')),
+ensures unmoved(*old(p), *final(p)), r.kind == kind, r.pos == self.pos,
+    // the slot gets its kind and a Finish event is appended; every other slot is untouched
+    final(p).events@ == old(p).events@.update(self.pos as int, Event::Start { kind, forward_parent: None }).push(Event::Finish),''',
+                          ghost=[('p.push_event(Event::Finish);', 'before', 'proof { lemma_has_err_update(old(p).events@, self.pos as int, p.events@[self.pos as int]); }')])),
+        ('abandon', dict(props=P, mut_self=True, spec=MK + ''' pending_at(old(p).events@, self.pos as int),
+ensures unmoved(*old(p), *final(p)),
+    // the reserved slot is removed again if nothing came after it, otherwise it stays (as a tombstone)
+    final(p).events@ == (if self.pos == old(p).events@.len() - 1 { old(p).events@.drop_last() } else { old(p).events@ }),''',
+                         ghost=[('match p.events.pop() {', 'before', 'proof { lemma_has_err_drop_last(old(p).events@); }')])),
     ])
     p.impl('CompletedMarker', [
         ('new', dict(ret='r', props=P, spec='ensures r.pos == pos, r.kind == kind,')),
-        ('precede', dict(ret='r', props=P, trusted=True, note='marker discipline not verified', spec=MK + '\nensures unmoved(*old(p), *final(p)),')),
-        ('extend_to', dict(ret='r', props=P, trusted=True, note='marker discipline not verified', spec=MK + '\nensures unmoved(*old(p), *final(p)), r.kind == self.kind,')),
+        ('precede', dict(ret='r', props=P, spec=MK + ''' done_at(old(p).events@, self.pos as int),
+ensures unmoved(*old(p), *final(p)), r.pos == old(p).events@.len(),
+    // a new pending slot is appended and the completed node points forward to it; nothing else changes
+    final(p).events@.len() == old(p).events@.len() + 1, pending_at(final(p).events@, r.pos as int), done_at(final(p).events@, self.pos as int),
+    evf(old(p).events@, final(p).events@, old(p).events@.len() as int),''',
+                         ghost=[('        new_pos\n', 'before', 'proof { let e1 = old(p).events@.push(Event::Start { kind: SyntaxKind::TOMBSTONE, forward_parent: None }); lemma_has_err_push(old(p).events@, e1.last()); lemma_has_err_update(e1, self.pos as int, p.events@[self.pos as int]); assert(p.events@ =~= e1.update(self.pos as int, p.events@[self.pos as int])); }')])),
+        ('extend_to', dict(ret='r', props=P, spec=MK + ''' done_at(old(p).events@, self.pos as int), pending_at(old(p).events@, m.pos as int), m.pos < self.pos,
+ensures unmoved(*old(p), *final(p)), r.kind == self.kind, r.pos == self.pos,
+    final(p).events@.len() == old(p).events@.len(), done_at(final(p).events@, self.pos as int), done_at(final(p).events@, m.pos as int),
+    forall|i: int| 0 <= i < old(p).events@.len() && i != m.pos ==> final(p).events@[i] == old(p).events@[i],''',
+                           ghost=[('        self\n', 'before', 'proof { lemma_has_err_update(old(p).events@, m.pos as int, p.events@[m.pos as int]); assert(p.events@ =~= old(p).events@.update(m.pos as int, p.events@[m.pos as int])); }')])),
         ('kind', dict(ret='r', props=P, spec='ensures r == self.kind,')),
     ])
     U.raw('}\n')
@@ -385,8 +401,8 @@ ensures unmoved(*old(p), *final(p)), r.kind == kind,''')),
     }
     LOOPS = {
         'source_file_contents': {1: DEC}, 'switch_case_stmt': {1: 'invariant crate::parser::mono(*old(p), *p), p.pos > old(p).pos,\ndecreases crate::parser::rem(p.st()),'}, 'expr_block_statements': {1: DEC},
-        'expr_bp': {1: 'invariant crate::parser::mono(*old(p), *p), bp >= 1, p.pos > old(p).pos,\ndecreases crate::parser::rem(p.st()),'},
-        'postfix_expr': {1: DEC}, 'array_type_spec': {1: 'invariant crate::parser::mono(*old(p), *p), p.pos > old(p).pos,\ndecreases crate::parser::rem(p.st()),'},
+        'expr_bp': {1: 'invariant crate::parser::done_at(p.events@, lhs.pos as int), lhs.pos >= old(p).events@.len(), crate::parser::mono(*old(p), *p), bp >= 1, p.pos > old(p).pos,\ndecreases crate::parser::rem(p.st()),'},
+        'postfix_expr': {1: 'invariant crate::parser::mono(*old(p), *p), (lhs.pos >= old(p).events@.len() || lhs.pos == lhs0.pos),\ndecreases crate::parser::rem(p.st()),'}, 'array_type_spec': {1: 'invariant crate::parser::mono(*old(p), *p), p.pos > old(p).pos,\ndecreases crate::parser::rem(p.st()),'},
         'indexed_identifier': {1: DEC},
         'modified_gate_call_expr': {1: 'invariant crate::parser::mono(*old(p), *p),\nensures crate::parser::mono(*old(p), *p), (crate::parser::cur(old(p).st()) == SyntaxKind::INV_KW || crate::parser::cur(old(p).st()) == SyntaxKind::POW_KW || crate::parser::cur(old(p).st()) == SyntaxKind::CTRL_KW || crate::parser::cur(old(p).st()) == SyntaxKind::NEGCTRL_KW) ==> p.pos > old(p).pos,\ndecreases crate::parser::rem(p.st()),'}, 'tuple_expr': {1: 'invariant crate::parser::mono(*old(p), *p), p.pos > old(p).pos,\ndecreases crate::parser::rem(p.st()),'},
         'array_expr': {1: 'invariant_except_break n_exprs < p.pos - old(p).pos,\ninvariant crate::parser::mono(*old(p), *p), p.pos > old(p).pos,\ndecreases crate::parser::rem(p.st()),'},
@@ -500,10 +516,11 @@ use super::*;
                                          "|p: &mut Parser<'_>| -> (b: bool) requires old(p).wf(), crate::parser::rem(old(p).st()) < rem0, ensures crate::parser::mono(*old(p), *final(p)), { expr(p).is_some() },")],
                               ghost=[('    delimited(', 'before', 'let ghost rem0 = crate::parser::rem(old(p).st());')]),
         'stmt': dict(rewrites=[('GHOST-nested-fn-contract', "    fn let_stmt(p: &mut Parser<'_>, m: Marker) {",
-                                "    fn let_stmt(p: &mut Parser<'_>, m: Marker)\n        requires old(p).wf(), crate::parser::at(old(p).st(), T![let]),\n        ensures crate::parser::mono(*old(p), *final(p)), crate::parser::adv(*old(p), *final(p)),\n        decreases crate::parser::rem(old(p).st()), %dnat,\n    {" % __import__('units.parser_ranks', fromlist=['RANK']).RANK.get('let_stmt', 0))]),
-        'expr': dict(rewrites=[D8]),
+                                "    fn let_stmt(p: &mut Parser<'_>, m: Marker)\n        requires old(p).wf(), crate::parser::at(old(p).st(), T![let]), crate::parser::pending_at(old(p).events@, m.pos as int),\n        ensures crate::parser::mono_from(*old(p), *final(p), m.pos as int), crate::parser::adv(*old(p), *final(p)),\n        decreases crate::parser::rem(old(p).st()), %dnat,\n    {" % __import__('units.parser_ranks', fromlist=['RANK']).RANK.get('let_stmt', 0))]),
+        'expr': dict(rewrites=[D8], closures=True),
+        'postfix_expr': dict(ghost=[('{', 'after', 'let ghost lhs0 = lhs;')]),
         'range_expr': dict(rewrites=[D8 + (3,)]),
-        'expr_or_range_expr': dict(rewrites=[D8 + (3,)]),
+        'expr_or_range_expr': dict(rewrites=[D8 + (3,)], closures=True),
         'expr_bp': dict(rewrites=[D2], props=P5, spec=gspec(' bp >= 1,', ENS['expr_bp'][0]),
                         # C05 associativity: the right operand of a left-associative operator of binding power b is parsed
                         # with minimum b + 1 (an operator of the same level does not nest to the right), of a right-associative one with b
@@ -541,6 +558,95 @@ ensures
     U.not_verified = ['Marker::{complete,abandon}, CompletedMarker::{precede,extend_to}: event-slot discipline (trusted contracts: state unchanged)',
                       'Parser::nth: Cell step counter and the "parser seems stuck" assertion', 'Parser::error (generic Into<String>)',
                       'Input::{push,was_joint} (SHORT unit)']
+    # ---- marker discipline: contracts generated from the SIGNATURES (which markers come in, which go out)
+    from vlib.rustsrc import RustFile as _RF, split_signature as _split, find_loops as _find_loops
+    import os as _os
+    from vlib.unit import REPO as _REPO
+    _cache = {}
+    loops_exist = lambda b_: bool(_find_loops(b_))
+    for e in U.all_fn_entries():
+        if e.trusted or not e.file.startswith('crates/oq3_parser/src/grammar') or not e.spec or 'old(p).wf()' not in e.spec:
+            continue
+        rf = _cache.setdefault(e.file, _RF(_os.path.join(_REPO, e.file)))
+        try:
+            it = rf.find_fn(e.name, None, e.depth)
+        except KeyError:
+            continue
+        text = rf.src[it['header_start']:it['end']]
+        sig, body = _split(text)
+        pend = re.findall(r'\b(\w+)\s*:\s*Marker\b', sig)
+        optm = re.findall(r'\b(\w+)\s*:\s*Option<Marker>', sig)
+        comp = re.findall(r'\b(\w+)\s*:\s*CompletedMarker\b', sig)
+        rm = re.search(r'->\s*(.+?)\s*$', sig.strip(), re.S)
+        rty = ' '.join(rm.group(1).split()) if rm else ''
+        req, ens = '', ''
+        lo = None
+        for m_ in pend:
+            req += ' crate::parser::pending_at(old(p).events@, %s.pos as int),' % m_
+            lo = '%s.pos as int' % m_
+        for m_ in optm:
+            req += ' (%s is Some ==> crate::parser::pending_at(old(p).events@, %s->Some_0.pos as int)),' % (m_, m_)
+            lo = '(if %s is Some { %s->Some_0.pos as int } else { old(p).events@.len() as int })' % (m_, m_)
+        for c_ in comp:
+            req += ' crate::parser::done_at(old(p).events@, %s.pos as int),' % c_
+        if 'CompletedMarker' in rty or rty.startswith('Result<(), Marker>'):
+            if not e.ret:
+                e.ret = 'res'
+            r_ = e.ret
+            def fresh(x):
+                # a returned completed node is a new one, or one of those that came in
+                return ' (%s.pos >= old(p).events@.len()%s%s%s),' % (x, ''.join(' || %s.pos == %s.pos' % (x, c_) for c_ in comp), ''.join(' || %s.pos == %s.pos' % (x, m_) for m_ in pend), ''.join(' || (%s is Some && %s.pos == %s->Some_0.pos)' % (m_, x, m_) for m_ in optm))
+            if rty == 'CompletedMarker':
+                ens += ' crate::parser::done_at(final(p).events@, %s.pos as int),' % r_ + fresh(r_)
+            elif rty.startswith('(CompletedMarker'):
+                ens += ' crate::parser::done_at(final(p).events@, %s.0.pos as int),' % r_ + fresh(r_ + '.0')
+            elif rty == 'Option<CompletedMarker>':
+                ens += ' (%s is Some ==> crate::parser::done_at(final(p).events@, %s->Some_0.pos as int) && %s->Some_0.pos >= old(p).events@.len()),' % (r_, r_, r_)
+            elif rty.startswith('Option<(CompletedMarker'):
+                ens += ' (%s is Some ==> crate::parser::done_at(final(p).events@, %s->Some_0.0.pos as int) && %s->Some_0.0.pos >= old(p).events@.len()),' % (r_, r_, r_)
+            elif rty.startswith('Result<(), Marker>'):
+                ens += ' (%s is Err ==> %s->Err_0.pos == %s.pos && crate::parser::pending_at(final(p).events@, %s.pos as int)),' % (r_, r_, pend[0], pend[0])
+        spec = e.spec
+        if req:
+            spec = spec.replace('requires old(p).wf(),', 'requires old(p).wf(),' + req, 1)
+        if lo:
+            spec = spec.replace('crate::parser::mono(*old(p), *final(p)),', 'crate::parser::mono_from(*old(p), *final(p), %s),' % lo, 1)
+        if ens:
+            spec = re.sub(r'(mono(?:_from)?\(\*old\(p\), \*final\(p\)[^\n]*?\),)', lambda m__: m__.group(1) + ens, spec, count=1)
+        e.spec = spec
+        if lo and loops_exist(body):
+            e.ghost = [('{', 'after', 'let ghost oq3_lo: int = %s;' % lo)] + list(e.ghost)
+        # loops: the frame of the function, plus the validity of the markers that are still used afterwards
+        names = [(n_, 'pending_at') for n_ in pend] + [(n_, 'done_at') for n_ in comp]
+        for mm in re.finditer(r'\blet\s+(?:mut\s+)?(\w+)\s*=\s*(?:p\.start\(\)|\w+\.precede\(p\))', body):
+            names.append((mm.group(1), 'pending_at', mm.start()))
+        loops = _find_loops(body)
+
+        def inv_for(kwoff):
+            extra = []
+            for t in names:
+                nm, pred = t[0], t[1]
+                decl = t[2] if len(t) > 2 else -1
+                used_after = re.search(r'\b%s\s*\.(complete|abandon|precede)\(|[(,]\s*%s\s*[),]' % (nm, nm), body[kwoff:])
+                if decl < kwoff and used_after:
+                    extra.append('crate::parser::%s(p.events@, %s.pos as int)' % (pred, nm))
+            return extra
+        if loops:
+            newl = dict(e.loops)
+            for k_, (kwoff, broff, kw_) in enumerate(loops, 1):
+                sp = newl.get(k_) or e.all_loops
+                if not sp:
+                    continue
+                itn = None
+                if isinstance(sp, tuple):
+                    itn, sp = sp
+                if lo:
+                    sp = sp.replace('crate::parser::mono(*old(p), *p)', 'crate::parser::mono_from(*old(p), *p, oq3_lo)')
+                ex = inv_for(kwoff)
+                if ex:
+                    sp = sp.replace('invariant ', 'invariant ' + ', '.join(ex) + ', ', 1) if sp.lstrip().startswith('invariant ') else sp.replace('\ninvariant ', '\ninvariant ' + ', '.join(ex) + ', ', 1)
+                newl[k_] = (itn, sp) if itn else sp
+            e.loops = newl
     # ---- C01 stage 3: termination of the mutual recursion of the grammar
     from units.parser_ranks import RANK
     for e in U.all_fn_entries():
